@@ -5,7 +5,10 @@
      VIOL multiq:missing-line   number of output lines <> number of lines of the query file
      VIOL multiq:order          the right lines in another order
      VIOL multiq:bytes-differ   anything else that differs from the single-thread output
-     VIOL multiq:panic / multiq:hang   the multi-thread run died although the single-thread run did not
+     VIOL multiq:panic / multiq:hang   the multi-thread run died although the single-thread run did not;
+                                multiq:hang also when the single-thread run panics (terminates with a
+                                message) and the multi-thread run blocks for ever (planted case
+                                `planted-panic <literal>`, see C15_worker_panic_blocks_refuted)
    CORRESPONDENCE with the extracted Coq model (Model/MultiQ.v):
      DIFF parse            mq_parse_file (file bytes) <> parse_queries_file
      DIFF render-single    mq_render_single with the single-thread answers <> single-thread bytes
@@ -91,6 +94,7 @@ let show_event (e : ev) : string =
   | Model.EPullNone w -> Printf.sprintf "pull-none(%d)" (n w)
   | Model.ESend (w, i) -> Printf.sprintf "send(%d,%d)" (n w) (n i)
   | Model.ERecv i -> Printf.sprintf "recv(%d)" (n i)
+  | Model.EDie (w, i) -> Printf.sprintf "die(%d,%d)" (n w) (n i)
   | Model.EWrite -> "write"
   | Model.EJoin -> "join"
 
@@ -112,7 +116,7 @@ let enabled (s : string Model.mq_state) : ev list =
         (match s.Model.mq_queue with
          | (i, _) :: _ -> evs := Model.EPull (wn, i) :: !evs
          | [] -> evs := Model.EPullNone wn :: !evs)
-      | Model.WBusy (i, _) -> evs := Model.ESend (wn, i) :: !evs
+      | Model.WBusy (i, _) -> evs := Model.ESend (wn, i) :: Model.EDie (wn, i) :: !evs
       | Model.WExited -> ()) s.Model.mq_workers;
   (match s.Model.mq_chan, s.Model.mq_main with
    | ((i, _), _) :: _, Model.PCollect (Model.S _) -> evs := Model.ERecv i :: !evs
@@ -124,6 +128,7 @@ let enabled (s : string Model.mq_state) : ev list =
 let check (b : block) : verdict list =
   let out = ref [] in
   let add v = out := v :: !out in
+  bump_by "traces_validated" 0;
   let op = match find b "op" with Some [o] -> o | _ -> "count" in
   let content = match file_bytes b "queries" with Some c -> c | None -> failwith "no query file" in
   let model_parse = Model.mq_parse_file (Conv.coq_string content) in
@@ -170,9 +175,39 @@ let check (b : block) : verdict list =
        add (Diff ("parse", Printf.sprintf "%d lines in the file, %d work items in the model" file_line_count nq));
      (match single with
       | Some ("panic" :: m) ->
-        (* an operation that panics on a well-formed query: not C15's subject; recorded *)
-        bump "single_thread_panics";
-        add (Diff ("single-panic", "single-thread evaluation panicked on a parsable file: " ^ String.concat " " m))
+        (match find b "planted-panic" with
+         | Some [lit] ->
+           (* the operation panics on the queries with this literal (known defect of another
+              property); what C15 is about: do j = 1 and j > 1 then behave alike? *)
+           bump "single_thread_panics";
+           let lit = int_of_string lit in
+           let panics (q : Model.z list) = List.mem lit (Conv.ints_of_zlist q) in
+           let answer (_ : Model.z list) = "0" and rshow = Conv.coq_string and rcmp = rcmp_of op in
+           let (_, p) = Model.mq_single answer panics rshow w in
+           if not p then add (Diff ("model-output", "the model's single-thread loop does not panic"));
+           List.iter (fun r ->
+               match r with
+               | tag :: j :: _ :: _ :: _ :: status :: _ ->
+                 bump "runs";
+                 let j = int_of_string j in
+                 let init : string Model.mq_state = Model.mq_init w (Conv.nat_of_int j) in
+                 let s' = Model.mq_complete answer panics rcmp rshow (Conv.nat_of_int (3 * nq + j + 8)) init in
+                 let stuck = (match s'.Model.mq_main with Model.PCollect (Model.S _) -> true | _ -> false)
+                             && List.for_all (fun e -> Model.mq_valid_event answer panics rcmp rshow s' e = None) (enabled s') in
+                 (match status with
+                  | "hang" ->
+                    if j > 1 && not stuck then add (Diff ("model-output", "the implementation blocks, the model does not"))
+                    else bump "model_predicts_block";
+                    add (Viol ("multiq:hang",
+                               Printf.sprintf "run %s j=%d: the single-thread evaluation panics (%s), the multi-thread one never returns"
+                                 tag j (String.concat " " m)))
+                  | "panic" -> if j > 1 && stuck then add (Diff ("model-output", "the model blocks, the implementation panics"))
+                  | _ -> add (Viol ("multiq:bytes-differ",
+                                    Printf.sprintf "run %s j=%d returns although the single-thread evaluation panics" tag j)))
+               | _ -> add (Diff ("driver", "bad run line"))) runs
+         | _ ->
+           (* an operation that panics on a well-formed query without being planted *)
+           add (Diff ("single-panic", "single-thread evaluation panicked on a parsable file: " ^ String.concat " " m)))
       | Some ("hang" :: _) -> add (Diff ("single-hang", "single-thread evaluation did not return"))
       | Some ("ok" :: _) ->
         let sbytes = match file_bytes b "single" with Some s -> s | None -> failwith "no single output" in
@@ -213,6 +248,7 @@ let check (b : block) : verdict list =
             | None -> "?" in
           let rshow = Conv.coq_string in
           let rcmp = rcmp_of op in
+          let panics (_ : Model.z list) = false in
           let model_single = Conv.ocaml_string (Model.mq_render_single answer rshow w) in
           if model_single <> sbytes then
             add (Diff ("render-single", "mq_render_single with the single-thread answers differs from the single-thread bytes"))
@@ -261,7 +297,7 @@ let check (b : block) : verdict list =
                    let init : string Model.mq_state = Model.mq_init w jn in
                    let fuel = Conv.nat_of_int (3 * nq + j + 8) in
                    let finish (s : string Model.mq_state) (what : string) =
-                     let s' = Model.mq_complete answer rcmp rshow fuel s in
+                     let s' = Model.mq_complete answer panics rcmp rshow fuel s in
                      match s'.Model.mq_main with
                      | Model.PJoined o ->
                        let o = Conv.ocaml_string o in
@@ -290,7 +326,7 @@ let check (b : block) : verdict list =
                           let rec go s k = function
                             | [] -> Stdlib.Ok s
                             | e :: tl ->
-                              (match Model.mq_valid_event answer rcmp rshow s e with
+                              (match Model.mq_valid_event answer panics rcmp rshow s e with
                                | Some s' -> go s' (k + 1) tl
                                | None -> Stdlib.Error (k, e))
                           in
@@ -318,10 +354,12 @@ let check (b : block) : verdict list =
                           match enabled s with
                           | [] -> s
                           | evs ->
-                            let e = List.nth evs (rnd (List.length evs)) in
-                            (match Model.mq_valid_event answer rcmp rshow s e with
-                             | Some s' -> go s' (n - 1)
-                             | None -> s)
+                            let valid = List.filter_map (fun e ->
+                                match Model.mq_valid_event answer panics rcmp rshow s e with
+                                | Some s' -> Some s' | None -> None) evs in
+                            (match valid with
+                             | [] -> s
+                             | _ -> go (List.nth valid (rnd (List.length valid))) (n - 1))
                       in
                       let s = go init (3 * nq + j + 8) in
                       finish s "a pseudo-random schedule")
